@@ -9,6 +9,10 @@ This script copies the selected declarations (whole `mutual` blocks), keeps `var
 renames `namespace XotModel[.X]` to `namespace XotModel.PiColon[.X]` (+ `open XotModel.X`), chains the imports, and
 applies the hand patches PATCHES (the places where the NCName clause / the guard PlainPiTargets was used).
 Lemmas/PiColonDefs.lean and Lemmas/PiColonWitness.lean are written by hand.
+The copy of Props/C01.lean is written twice: Lemmas/PiColonC01.lean (namespace XotModel.PiColon, used by Props/C03)
+and - renamed `C01_x_pi_colon`, namespace XotModel.Props - between the markers `-- BEGIN/END GENERATED picolon` of
+Props/C01.lean itself (with an outdir: into <outdir>/XotModel/Props/C01.picolon-section.lean).
+Drift guard (regenerate into a temporary directory, diff against the committed files): sh extract/picolon/check.sh
 """
 import re, collections, os, sys
 ROOT=os.path.dirname(os.path.dirname(os.path.dirname(os.path.abspath(__file__))))
@@ -65,6 +69,41 @@ def newname(m):
     base=m.split('.')[-1]
     return 'XotModel.Lemmas.PiColon'+base
 TOP=re.compile(r'^(theorem|def|example|/--|/-!|/-|namespace|end|open|section|variable|mutual|instance|structure|inductive|@\[|private|set_option|attribute|abbrev|#)')
+BEGIN='-- BEGIN GENERATED picolon (extract/picolon/gen.py; do not edit between the markers)'
+END='-- END GENERATED picolon'
+def copied_names():
+    """Declarations that exist in the namespace XotModel.PiColon (the copies written so far + PiColonDefs)."""
+    names=set()
+    d=os.path.join(OUT,'XotModel','Lemmas')
+    files=[os.path.join(d,f) for f in os.listdir(d) if f.startswith('PiColon') and f not in ('PiColonC01.lean','PiColonWitness.lean')]
+    files.append(os.path.join(LEAN,'XotModel','Lemmas','PiColonDefs.lean'))
+    for f in files:
+        names|=set(re.findall(r'^\s*(?:private\s+)?(?:theorem|def|abbrev|structure|inductive)\s+(\S+)',open(f).read(),flags=re.M))
+    return names
+def c01_section(text):
+    """The Props.C01 copy once more, for the last section of Props/C01.lean itself (Lemmas/PiColonC01.lean imports
+    Props.C01, so Props/C01.lean cannot import it): the same proof texts in the namespace XotModel.Props, the
+    theorems renamed `C01_x` -> `C01_x_pi_colon`, every name that has a copy in XotModel.PiColon qualified."""
+    body=text.split('open XotModel XotModel.Gen XotModel.Props\n',1)[1].split('\nend XotModel.PiColon')[0]
+    own=re.findall(r'^theorem\s+(\S+)',body,flags=re.M)
+    for n in sorted(copied_names(),key=len,reverse=True):
+        if n in own: continue
+        body=re.sub(r'(?<![\w.])'+re.escape(n)+r'(?![\w])','PiColon.'+n,body)
+    for n in sorted(own,key=len,reverse=True):
+        body=re.sub(r'(?<![\w.])'+re.escape(n)+r'(?![\w])',n+'_pi_colon',body)
+    sec=BEGIN+'\nnamespace XotModel.Props\nopen XotModel XotModel.Gen\n'+body.rstrip('\n')+'\n\nend XotModel.Props\n'+END+'\n'
+    if OUT==LEAN:
+        f=os.path.join(LEAN,'XotModel','Props','C01.lean')
+        src=open(f).read()
+        assert BEGIN in src and END in src, 'markers missing in Props/C01.lean'
+        a=src.index(BEGIN); b=src.index(END)+len(END)+1
+        open(f,'w').write(src[:a]+sec+src[b:])
+    else:
+        f=os.path.join(OUT,'XotModel','Props','C01.picolon-section.lean')
+        os.makedirs(os.path.dirname(f),exist_ok=True)
+        open(f,'w').write(sec)
+    print('Props/C01 section', sec.count('\n'))
+
 prev=None
 for m in order:
     f=os.path.join(LEAN,m.replace('.','/')+'.lean')
@@ -130,4 +169,6 @@ for m in order:
     os.makedirs(os.path.dirname(newf),exist_ok=True)
     open(newf,'w').write(text)
     print(newname(m), len(out))
+    if m=='XotModel.Props.C01':
+        c01_section(text)
     prev=m
